@@ -48,7 +48,7 @@ static void bad(const char* what, const char* fmt, ...) {
 /* the reference resolver: absolute guest paths are used as they are, relative ones are appended to
  * the directory with exactly one separator; returns 0 if the path is empty or the result (plus its
  * terminator) does not fit the host limit */
-static int resolve(const char* dir, const char* path, size_t plen, char* out /* 3*limit */) {
+static int resolve(const char* dir, const char* path, size_t plen, char* out /* 6*limit */) {
     size_t n = 0, dl = strlen(dir);
     if (plen == 0) return 0;
     if (path[0] != '/') { memcpy(out, dir, dl); n = dl; if (dir[dl - 1] != '/') out[n++] = '/'; }
@@ -67,7 +67,7 @@ static void padTo(char* s, size_t want, const char* pair) { while (strlen(s) + 2
 
 static void e1(char* line) {
     char* f[8];
-    static char dir[3 * HOST_PATH_LIMIT], gp[3 * HOST_PATH_LIMIT], R[3 * HOST_PATH_LIMIT], T[700], tgt[800], other[800], buf[64];
+    static char dir[3 * HOST_PATH_LIMIT], gp[3 * HOST_PATH_LIMIT], R[6 * HOST_PATH_LIMIT], T[700], tgt[800], other[800], buf[64];
     const char *call, *name;
     size_t D, P;
     int slash, isAbs, ns, rootDir, rootTarget = 0, fits, weak, isLong, e = -1, effect = 0, none = 0;
@@ -132,7 +132,7 @@ static void e1(char* line) {
     if (!strcmp(call, "create_directory")) e = NS(ns, path_create_directory)(I, 3, pp, P);
     else if (!strcmp(call, "remove_directory")) e = NS(ns, path_remove_directory)(I, 3, pp, P);
     else if (!strcmp(call, "unlink_file")) e = NS(ns, path_unlink_file)(I, 3, pp, P);
-    else if (!strcmp(call, "filestat_get")) { hx_allow(0x400, tw_layout[ns].size); e = NS(ns, path_filestat_get)(I, 3, TW_LOOKUP_SYMLINK_FOLLOW, pp, P, 0x400); }
+    else if (!strcmp(call, "filestat_get")) { hx_allow(0x400, 64); /* struct size is C12's subject */ e = NS(ns, path_filestat_get)(I, 3, TW_LOOKUP_SYMLINK_FOLLOW, pp, P, 0x400); }
     else if (!strcmp(call, "open")) { hx_allow(0x400, 4); e = NS(ns, path_open)(I, 3, TW_LOOKUP_SYMLINK_FOLLOW, pp, P, rootTarget ? TW_O_DIRECTORY : TW_O_CREAT, rootTarget ? TW_RIGHT_FD_READDIR : tw_rights(3), 0, 0, 0x400); }
     else if (!strcmp(call, "readlink")) { hx_allow(0x400, 4); hx_allow(0x500, 16); e = NS(ns, path_readlink)(I, 3, pp, P, 0x500, 16, 0x400); }
     else if (!strcmp(call, "symlink")) e = NS(ns, path_symlink)(I, 0x100, 3, 3, pp, P);
@@ -237,7 +237,7 @@ static void e2(char* history) {
         } else if (!strcmp(f[0], "fs")) {
             const tw_statlayout* L = &tw_layout[ns];
             name = "path_filestat_get";
-            memset(hx_mem.data + STAT, FILL, 128); hx_snapshot(); hx_allow(STAT, L->size);
+            memset(hx_mem.data + STAT, FILL, 128); hx_snapshot(); hx_allow(STAT, 64);   /* struct size is C12's subject */
             e = NS(ns, path_filestat_get)(I, fd1, TW_LOOKUP_SYMLINK_FOLLOW, NP, strlen(ga), STAT);
             terr = stat(hb, &st) ? tw_errno(errno) : 0;
             if (e == 0 && terr == 0) {
